@@ -61,9 +61,9 @@ impl Check for C07 {
     }
     fn n_runs(&self, thorough: bool) -> u64 {
         if thorough {
-            60_000
+            600_000
         } else {
-            1_500
+            12_000
         }
     }
     fn gen_plan(&self, seed: u64, _idx: u64, _t: bool) -> Value {
